@@ -9,11 +9,14 @@
 (***************************************************************************)
 EXTENDS QueueCacheContract, TraceIO
 
+CONSTANT Level      \* "strict": the judged clause; "full": also NoRegress and Fresh (reported as drift)
+
 TraceInit == l = 1 /\ QCInit
 TraceNext ==
-    \/ IsEvent("reset") /\ tv' = 0 /\ seen' = 0
+    \/ IsEvent("reset") /\ tv' = 0 /\ seen' = 0 /\ nsv' = 0
     \/ IsEvent("truth") /\ Truth
-    \/ IsEvent("cache") /\ CacheObs(Ev.in, Ev.v, Ev.fresh)
+    \/ IsEvent("cache") /\ (IF Level = "full" THEN CacheObsFull(Ev.in, Ev.v, Ev.s, Ev.fresh)
+                                               ELSE CacheObs(Ev.in, Ev.v, Ev.s, Ev.fresh))
     \/ IsEvent("note") /\ Other
 TraceSpec == TraceInit /\ [][TraceNext]_<<qcvars, l>>
 =============================================================================
